@@ -156,3 +156,102 @@ func c14FlatDoc(r *rand.Rand, format string, keys []string) *ref.V {
 	}
 	return m
 }
+
+// Decoder-state family: the command layer builds ONE decoder per run and calls Init on it for every input file,
+// so what it yields for file k must not depend on files 1..k-1. Oracle (metamorphic, real binary on both sides):
+// `yq -p=F -o=json . f0 f1 ..` prints the concatenation of what `yq -p=F -o=json . fi` prints for each file alone.
+func c14MultiFileDecode(w *mon.Worker, idx int) mon.Result {
+	r := w.Rand(idx)
+	format := []string{"toml", "xml", "json", "csv", "tsv", "props", "yaml", "toml", "xml"}[r.IntN(9)]
+	res := mon.Result{Tags: []string{"cell:multifile-decode:" + format}}
+	n := 2 + r.IntN(2)
+	keys := []string{"name", "cats", "id", "zz", "k"}
+	var texts []string
+	for i := 0; i < n; i++ {
+		if format == "toml" {
+			texts = append(texts, c14TomlText(r, keys))
+			continue
+		}
+		d := c14FlatDoc(r, format, keys)
+		o, err, pan := yqx.Eval(".", d.JSON()+"\n", "yaml", format)
+		res.Evals++
+		if err != nil || pan != nil {
+			res.Verdict, res.Detail = mon.Held, "a document is not encodable in this format"
+			res.Tags = append(res.Tags, "not_encodable")
+			return res
+		}
+		texts = append(texts, o)
+	}
+	res.Case = map[string]any{"input_format": format, "files": texts}
+	res.Sig = fmt.Sprintf("multifile|%s|%x", format, hashStr(strings.Join(texts, "\x00")))
+	res.Nontrivial = true
+	dir := filepath.Join(w.Scratch, fmt.Sprintf("c14mf-%d", idx))
+	_ = os.MkdirAll(dir, 0o755)
+	defer os.RemoveAll(dir)
+	var names, single []string
+	for i, t := range texts {
+		f := filepath.Join(dir, fmt.Sprintf("f%d.%s", i, format))
+		_ = os.WriteFile(f, []byte(t), 0o644)
+		names = append(names, f)
+		br := mon.Run(mon.RunOpts{Dir: dir}, w.YqBin(), "-p="+format, "-o=json", "-I=0", ".", f)
+		res.Evals++
+		if br.TimedOut || br.Exit != 0 {
+			res.Verdict, res.Nontrivial, res.Detail = mon.Held, false, "a file is not readable on its own: "+clipStr(string(br.Stderr), 200)
+			res.Tags = append(res.Tags, "single_file_unreadable")
+			return res
+		}
+		single = append(single, string(br.Stdout))
+	}
+	for _, mode := range []string{"eval", "eval-all"} {
+		br := mon.Run(mon.RunOpts{Dir: dir}, append([]string{w.YqBin(), mode, "-p=" + format, "-o=json", "-I=0", "."}, names...)...)
+		res.Evals++
+		if br.TimedOut {
+			res.Verdict, res.Detail = mon.Inconclusive, "timed out"
+			return res
+		}
+		if br.Exit != 0 || string(br.Stdout) != strings.Join(single, "") {
+			res.Verdict = mon.Violated
+			res.Detail = fmt.Sprintf("yq %s -p=%s -o=json . f0..f%d (exit %d) differs from the files read one by one\n files: %q\n one by one:\n%s together:\n%s%s", mode, format, n-1, br.Exit, texts, clipStr(strings.Join(single, ""), 700), clipStr(string(br.Stdout), 700), clipStr(string(br.Stderr), 300))
+			return res
+		}
+	}
+	res.Verdict = mon.Held
+	res.Detail = fmt.Sprintf("%d %s files, together == one by one", n, format)
+	return res
+}
+
+// c14TomlText: a small TOML file: top-level keys, a table and an array of tables, each drawn from one key pool
+// (so that what an earlier file left behind would show up under the same names in a later one).
+func c14TomlText(r *rand.Rand, keys []string) string {
+	val := func() string {
+		switch r.IntN(3) {
+		case 0:
+			return fmt.Sprint(r.IntN(50))
+		case 1:
+			return fmt.Sprintf("%q", []string{"Ann", "Bob", "x y", "q,r", "v"}[r.IntN(5)])
+		default:
+			return fmt.Sprint(r.IntN(2) == 0)
+		}
+	}
+	var sb strings.Builder
+	kv := func() {
+		perm := r.Perm(len(keys))
+		for _, i := range perm[:1+r.IntN(len(keys)-1)] {
+			fmt.Fprintf(&sb, "%s = %s\n", keys[i], val())
+		}
+	}
+	kv()
+	if r.IntN(2) == 0 {
+		sb.WriteString("\n[server]\n")
+		kv()
+	}
+	if r.IntN(2) == 0 {
+		sb.WriteString("\n[server.tls]\n")
+		kv()
+	}
+	for i := 0; i < r.IntN(3); i++ {
+		sb.WriteString("\n[[items]]\n")
+		kv()
+	}
+	return sb.String()
+}
